@@ -529,7 +529,8 @@ ApplyTDel(st, e) ==
      ELSE IF KeyMaybe(st, e) /\ ~e.res THEN R(Expire(s0, e), bad)
      ELSE LET it == st.timers[e.tid].item IN
           R([s0 EXCEPT !.timers[e.tid].s = "d"],
-            bad \cup B(e.res /\ st.items[it].s = "p", "C16", "deleted timer's closure was not released"))
+            bad \cup B(e.res /\ st.items[it].s = "p", "C16", "deleted timer's closure was not released")
+                \cup B(e.res /\ st.items[it].s = "p" /\ st.items[it].hr # {}, "C05", "Ret held by a deleted timer's closure was not invoked with None"))
 
 ApplyTAct(st, e) ==
   LET bad == KeyBad(st, e, "timer active result disagrees with whether the timer is pending") IN
